@@ -29,10 +29,18 @@ def colour(coord):
     return (40 * x + 15, 40 * y + 25, 60 * z + 7)
 
 
+def stale_colour(coord):
+    """content of the expired version of a tile (scenarios with a refresh rule)"""
+    r, g, b = colour(coord)
+    return (r, g, b + 100)
+
+
 class World(object):
     """cache dir + lock dir + painter upstream; one TileManager per request ("processes") or a shared one"""
 
-    def __init__(self, meta, wants, shared_manager=False):
+    def __init__(self, meta, wants, shared_manager=False, stale=False):
+        """stale: every tile is in the cache already, last written before the refresh threshold of the managers:
+        for the protocol an expired tile is a missing tile (`cache` of the model = the up-to-date tiles)"""
         from mapproxy.grid import TileGrid, MetaGrid
         from mapproxy.srs import SRS
         self.dir = tempfile.mkdtemp(prefix='verif-c08-')
@@ -61,6 +69,28 @@ class World(object):
             self.meta_of = {t: 'm' + t for t in self.coord}
             self.tiles_of = {'m' + t: (t,) for t in self.coord}
         self.wants = wants
+        self.stale = stale
+        self.threshold = None
+        if stale:
+            import time
+            from PIL import Image
+            from mapproxy.cache.file import FileCache
+            from mapproxy.cache.tile import Tile
+            from mapproxy.image import ImageSource
+            from mapproxy.image.opts import ImageOptions
+            now = int(time.time())
+            self.threshold = now - 500
+            c = FileCache(self.cache_dir, 'png')
+            used = set()
+            for ts in wants.values():
+                for t in ts:
+                    used |= set(self.tiles_of[self.meta_of[t]])
+            for t in sorted(used):
+                tile = Tile(self.coord[t])
+                tile.source = ImageSource(Image.new('RGB', (4, 4), stale_colour(self.coord[t])),
+                                          image_opts=ImageOptions(format='image/png'))
+                c.store_tile(tile)
+                os.utime(c.tile_location(tile), (now - 1000, now - 1000))
         self.shared = self._manager('shared') if shared_manager else None
         for r in sorted(wants):
             self.sched.spawn(r, self._driver(r))
@@ -96,12 +126,6 @@ class World(object):
                     self._bulk = False
                 w.emit('load_tiles', tiles=[w.tid.get(t.coord) for t in tiles if t.coord],
                        hit=[w.tid.get(t.coord) for t in tiles if t.coord and t.source is not None])
-                return res
-
-            def is_cached(self, tile, dimensions=None):
-                w.sched.point('is_cached')
-                res = FileCache.is_cached(self, tile, dimensions=dimensions)
-                w.emit('is_cached', tile=w.tid.get(tile.coord), res=bool(res))
                 return res
 
             def load_tile(self, tile, with_metadata=False, dimensions=None):
@@ -169,11 +193,24 @@ class World(object):
                 w.emit('fetch', bbox=list(query.bbox), size=list(query.size), meta=w.meta_name(query.bbox))
                 return ImageSource(img, size=query.size, image_opts=ImageOptions(format='image/png'))
 
+        class YManager(TileManager):
+            # "is the tile cached" includes the refresh rule: exists and was written after the threshold
+            def is_cached(self, tile, dimensions=None):
+                from mapproxy.cache.tile import Tile
+                if isinstance(tile, tuple):
+                    tile = Tile(tile)
+                w.sched.point('is_cached')
+                res = TileManager.is_cached(self, tile, dimensions=dimensions)
+                w.emit('is_cached', tile=w.tid.get(tile.coord), res=bool(res))
+                return res
+
         cache = YCache(self.cache_dir, 'png')
         locker = YLocker(self.lock_dir, 60, cache.lock_cache_id)
-        mgr = TileManager(self.grid, cache, [Painter()], 'png', locker=locker,
-                          image_opts=ImageOptions(format='image/png'),
-                          meta_size=self.meta, meta_buffer=0 if self.meta else None)
+        mgr = YManager(self.grid, cache, [Painter()], 'png', locker=locker,
+                       image_opts=ImageOptions(format='image/png'),
+                       meta_size=self.meta, meta_buffer=0 if self.meta else None)
+        if self.stale:
+            mgr._expire_timestamp = self.threshold
         return mgr
 
     def meta_name(self, bbox):
@@ -196,7 +233,7 @@ class World(object):
             coords = [self.coord[t] for t in self.wants[r]]
             tiles = mgr.load_tile_coords(coords)
             self.sched.point('respond')
-            delivered, wrong = [], []
+            delivered, wrong, stale_delivered = [], [], []
             for t in tiles:
                 if t.source is None:
                     continue
@@ -204,11 +241,16 @@ class World(object):
                 cols = set(img.getdata())
                 if cols == {colour(t.coord)}:
                     delivered.append(self.tid[t.coord])
+                elif self.stale and cols == {stale_colour(t.coord)}:
+                    # the expired version, read before another request replaced it
+                    delivered.append(self.tid[t.coord])
+                    stale_delivered.append(self.tid[t.coord])
                 else:
                     wrong.append((self.tid[t.coord], sorted(cols)[:3]))
             self.responses[r] = {'delivered': delivered, 'wrong': wrong,
                                  'missing': [t for t in self.wants[r] if t not in delivered]}
-            self.emit('respond', delivered=sorted(delivered), wrong=wrong)
+            self.responses[r]['stale'] = stale_delivered
+            self.emit('respond', delivered=sorted(delivered), wrong=wrong, stale=stale_delivered)
         return run
 
     # ---- observation ----------------------------------------------------------------------------------
@@ -224,6 +266,8 @@ class World(object):
             for x in range(gx):
                 loc = c.tile_location(Tile((x, y, LEVEL)))
                 if os.path.exists(loc):
+                    if self.stale and int(os.path.getmtime(loc)) <= self.threshold:
+                        continue                 # an expired tile: not cached as far as the protocol is concerned
                     name = self.tid.get((x, y, LEVEL), 'x%d_%d' % (x, y))
                     out.append(name)
                     try:
@@ -277,9 +321,9 @@ EXPECT = {'BulkLoad': 'load_tiles', 'CheckTile': 'is_cached', 'TryLock': 'lock_t
           'LoadAfter': 'load_tiles', 'LoadUnderLock': 'load_tile', 'Respond': 'respond'}
 
 
-def replay_behaviour(meta, wants, beh, lenient=False, shared=False):
+def replay_behaviour(meta, wants, beh, lenient=False, shared=False, stale=False):
     """force a TLC behaviour on real TileManagers. returns (status, detail, world)"""
-    w = World(meta, wants, shared_manager=shared)
+    w = World(meta, wants, shared_manager=shared, stale=stale)
     try:
         n = 0
         for act, st in beh[1:]:
@@ -345,8 +389,8 @@ def evaluate(w):
     return out
 
 
-def random_schedule(rng, meta, wants, shared=False, max_steps=600):
-    w = World(meta, wants, shared_manager=shared)
+def random_schedule(rng, meta, wants, shared=False, max_steps=600, stale=False):
+    w = World(meta, wants, shared_manager=shared, stale=stale)
     try:
         steps = 0
         while w.sched.runnable() and steps < max_steps:
@@ -385,14 +429,19 @@ SCENARIOS = {
     'map-requests': ((2, 1), {'r1': ['t1', 't3'], 'r2': ['t2', 't3', 't4'], 'r3': ['t4']}),
     'no-meta': (None, {'r1': ['t1', 't2'], 'r2': ['t2'], 'r3': ['t1']}),
     'meta-2x2': ((2, 2), {'r1': ['t1'], 'r2': ['t6', 't3']}),
+    # every tile is cached but expired (refresh rule): an expired tile is a missing tile for the protocol, the
+    # re-check under the lock has to see the tile another request has just replaced (C13 under concurrency)
+    'no-meta-expired': (None, {'r1': ['t1', 't2'], 'r2': ['t2'], 'r3': ['t1']}, True),
+    'same-tile-expired': ((2, 1), {'r1': ['t1'], 'r2': ['t1'], 'r3': ['t2']}, True),
 }
+SCENARIOS = {k: (v + (False,))[:3] for k, v in SCENARIOS.items()}
 INVS = ['FetchOncePerMeta', 'ResponsesComplete', 'FinalCacheExact', 'CacheOnlyFetched', 'OneCreator', 'NoCrossBlocking', 'NoStuck']
 
 
 def run(ctx):
     thorough = ctx.tier == 'thorough'
     tlc.sany(SPEC)
-    for name, (meta, wants) in SCENARIOS.items():
+    for name, (meta, wants, stale) in SCENARIOS.items():
         w0 = World(meta, wants)
         consts = w0.spec_consts(True)
         w0.close()
@@ -435,7 +484,7 @@ def run(ctx):
                 continue
             k += 1
             for shared in ((False, True) if (thorough or k % 5 == 0) else (False,)):
-                status, detail, w = replay_behaviour(meta, wants, beh, shared=shared)
+                status, detail, w = replay_behaviour(meta, wants, beh, shared=shared, stale=stale)
                 ctx.cov['replayed_behaviours'] += 1
                 ctx.cov['replayed_steps'] += len(beh) - 1
                 ctx.count(('replay', name, shared, tuple(a for a, _ in beh)))
@@ -458,7 +507,7 @@ def run(ctx):
         traces = []
         for i in range(150 if thorough else 30):
             shared = (i % 3 == 2)
-            tr, problems, consts_t = random_schedule(ctx.rng, meta, wants, shared=shared)
+            tr, problems, consts_t = random_schedule(ctx.rng, meta, wants, shared=shared, stale=stale)
             ctx.count(('sched', name, tuple((e['r'], e['ev']) for e in tr)))
             if problems:
                 what = problems[0]
@@ -482,7 +531,7 @@ def run(ctx):
         ctx.log('%s: validated %d schedules (%d rejected)' % (name, len(traces), len(rejected)))
 
     # (A) counterexamples of the protocol variants that the property rejects, forced on the real code
-    meta, wants = SCENARIOS['same-tile']
+    meta, wants, _ = SCENARIOS['same-tile']
     w0 = World(meta, wants)
     for variant, kw, inv in (('late cache hit not loaded', dict(late_hit_loads=False), 'ResponsesComplete'),
                              ('no re-check under the lock', dict(late_hit_loads=True, recheck=False), 'FetchOncePerMeta'),
@@ -507,7 +556,7 @@ def run(ctx):
             ctx.violation({'kind': 'problem', 'variant': variant}, detail, {'behaviour': [a for a, _ in r.trace]})
     w0.close()
     ctx.assumptions += [
-        'no upstream failures and no expiry during the requests (C13 covers those)',
+        'no upstream failures; the refresh threshold does not move during the requests (the *-expired scenarios start from a cache full of expired tiles; C13 covers the rule itself)',
         '"processes" are separate TileManager/FileCache/TileLocker object graphs sharing the cache and lock directories; '
         'lock exclusion itself is C07',
         'file cache backend; meta buffer 0 so that tile content is a function of the tile address',
@@ -521,9 +570,9 @@ def run(ctx):
 def replay(ctx, data):
     case = data.get('case') or {}
     if 'behaviour' in case and case.get('scenario') in SCENARIOS:
-        meta, wants = SCENARIOS[case['scenario']]
+        meta, wants, stale = SCENARIOS[case['scenario']]
         beh = [(a, {}) for a in case['behaviour']]
-        status, detail, w = replay_behaviour(meta, wants, beh, lenient=True)
+        status, detail, w = replay_behaviour(meta, wants, beh, lenient=True, stale=stale)
         print('replay:', status, detail)
         return 1 if (status == 'ok' and detail) or status == 'problem' else 0
     return 0
